@@ -33,6 +33,12 @@ def queries():
                 if m is not None:
                     q += f" offset {m}"
                 qs.append(("q", okey, n, m, q))
+    # ORDER BY a key that is not selected (the optimizer drops the sort of a key-ordered scan, and the scan is then asked
+    # for `v` only): the output sequence is determined when the keys are unique
+    for okey in ("k", "k desc"):
+        for n, m in [(None, None), (2, None), (None, 1), (2, 1), (5, 2)]:
+            q = f"select v from t order by {okey}" + (f" limit {n}" if n is not None else "") + (f" offset {m}" if m is not None else "")
+            qs.append(("u", okey, n, m, q))
     return qs
 
 
@@ -47,17 +53,20 @@ def scripts(tier):
     depth = 3 if tier == "quick" else 4
     ops = list(B) + list(DELS) + ["C"]
     qs = queries()
-    for pk in (True, False):
+    # pk = "second": the key is the table's second column (the scan's column positions differ from the table's)
+    for pk in (True, False, "second"):
         for engine, layout in configs(tier):
+            if pk == "second" and engine == "mem":
+                continue
             for h in U.seqs(ops, depth, 1):
                 if h[0] in DELS or h[0] == "C":
                     continue          # first op on an empty table: covered by the insert-first histories' prefixes being non-empty
                 if engine == "mem" and "C" in h:
                     continue          # no compactor in the memory engine
-                steps = [{"sql": f"create table t(k int{' primary key' if pk else ''}, v int)"}]
+                steps = [{"sql": "create table t(v int, k int primary key)" if pk == "second" else f"create table t(k int{' primary key' if pk else ''}, v int)"}]
                 for o in h:
                     if o in B:
-                        steps.append({"sql": U.insert_sql("t", B[o])})
+                        steps.append({"sql": U.insert_sql("t(k, v)" if pk == "second" else "t", B[o])})
                     elif o in DELS:
                         steps.append({"sql": DELS[o]})
                     else:
@@ -85,6 +94,20 @@ def judge(chk, case, qs, results):
             chk.fail(cid, U.status(r), c, r)
             continue
         rows = U.decode(r)
+        if kind == "u":
+            full = U.sort_rows(base, ORDERS[okey])
+            mm = m or 0
+            want = full[mm:] if n is None else full[mm:mm + n]
+            unique = len({r[0] for r in base}) == N
+            if len(rows) != len(want):
+                chk.fail(cid, "wrong-count", c, {"got": rows, "want_count": len(want), "table": base})
+            elif unique and [r[0] for r in rows] != [r[1] for r in want]:
+                chk.fail(cid, "wrong-slice", c, {"got": rows, "want": [r[1] for r in want], "table": base})
+            elif U.mset(rows) - U.mset([(r[1],) for r in base]):
+                chk.fail(cid, "rows-not-in-table", c, {"got": rows, "table": base})
+            else:
+                chk.ok(cid, nontrivial=N > 1 and unique, outcome=f"unselected-key:{len(rows)}", sample={"case": c, "rows": rows[:4]})
+            continue
         ms = U.mset(rows)
         if ms - base_ms:
             chk.fail(cid, "rows-not-in-table", c, {"got": rows, "table": base})
@@ -115,7 +138,7 @@ def judge(chk, case, qs, results):
 def run(tier, seed):
     chk = core.Check("C12", tier, "model_checking",
                      "every population history (ops: 3 overlapping insert batches, 2 predicate deletes, forced compaction; "
-                     "depth<=%d) x {pk,no pk} x {memory, disk layouts} x {5 ORDER BY key lists, none} x LIMIT,OFFSET in {absent,0,1,2,5}^2; "
+                     "depth<=%d) x {pk, no pk, pk as second column (disk)} x {memory, disk layouts} x {5 ORDER BY key lists, none} x LIMIT,OFFSET in {absent,0,1,2,5}^2, plus ORDER BY k / k desc with only v selected x 5 LIMIT/OFFSET pairs; "
                      "a case = (table kind, engine/layout, history, query); non-trivial = table has >1 row" % (3 if tier == 'quick' else 4), seed)
     qs = queries()
     items = list(scripts(tier))
